@@ -52,7 +52,7 @@ func verifH_C15_age() {
 //
 //verif:stub time.Now = verifC15Now
 //verif:stub (*github.com/Query-farm/vgi-rpc-go/vgirpc.HttpServer).openToken = verifC15OpenToken
-//verif:bound two instances sharing the key (A: cache size 1 or default, B: cache disabled); history = [continuation on A at t1 (cold: opens the call token), continuation on A and on B at t2>=t1]; TTL in [1,10^7] s; mint time, t1, t2 arbitrary instants; AEAD open + gob decode replaced by a stub returning an authentic token's fields
+//verif:bound two instances sharing the key (A: cache size 1 or default, B: cache disabled); history = [continuation on A at t1 (cold: opens the call token), continuation on A and on B at t2>=t1]; TTL in [1,10^7] s; mint time, t1, t2 arbitrary instants; the two presented cursors carry arbitrary (later) mint times of their own; AEAD open + gob decode replaced by a stub returning an authentic token's fields
 func verifH_C15_cache_transparent() {
 	ttlS := verifNondetInt64("ttl_s")
 	verifAssume(ttlS >= 1 && ttlS <= 10000000)
@@ -73,12 +73,18 @@ func verifH_C15_cache_transparent() {
 	}
 	hA := &HttpServer{tokenTTL: ttl, callStates: newCallStateCache(size, ttl)}
 	hB := &HttpServer{tokenTTL: ttl, callStates: newCallStateCache(0, ttl)}
-	cursor := &cursorTokenData{CallID: "c1"}
+	// cursors are re-minted every turn: each presented cursor carries its own
+	// (later) mint time, anywhere between the call's mint time and the request
+	cc1 := verifNondetInt64("cursor1.created")
+	cc2 := verifNondetInt64("cursor2.created")
+	verifAssume(cc1 >= created && cc1 <= s1 && cc2 >= cc1 && cc2 <= s2)
+	cursor := &cursorTokenData{CallID: "c1", CreatedAt: cc1}
 	tok := []byte("calltoken")
 
 	verifC15Sec, verifC15Nsec = s1, n1
 	_, e1 := hA.resolveCall(cursor, tok, nil)
 	verifC15Sec, verifC15Nsec = s2, n2
+	cursor = &cursorTokenData{CallID: "c1", CreatedAt: cc2}
 	opens := verifC15Opens
 	_, eA := hA.resolveCall(cursor, tok, nil)
 	hit := verifC15Opens == opens
